@@ -138,7 +138,7 @@ class _Base:
     def _enter(self, method, **kw):
         """Log the call and raise a synchronous injected exception if scheduled."""
         f, n = self._fault(method)
-        self._log(method, occ=n, fault=(f or {}).get("kind"), **kw)
+        self._log(method, occ=n, fault=(f or {}).get("kind"), fexc=(f or {}).get("exc") if f else None, **kw)
         if f and f["kind"] == "raise":
             self.sim.count_fault("dev_raise:" + method)
             raise make_exc(f.get("exc", "RuntimeError"), f"injected {self.name}.{method}#{n}")
